@@ -4447,6 +4447,11 @@ def bundle_readpath(P, R, L):
     R.once(blind.itr3_collapse_loops_only_step, P, R, L)
     R.clause("BLKR-1", "the block reader parses entries while the cursor is below the end of the entry area (no minimum-size cut-off: entries can be 4 bytes short)")
     R.once(blind.blkr1_reader_consumes_every_entry, P, R, L)
+    from . import round11
+    R.clause("MEM-1", "the memtable iterator positions with the skip-list primitive of its direction (>= target, first, last, successor of the current key, last node < the current key); insert stores the key / value it was given")
+    R.once(round11.mem1_memtable_iterator_primitives, P, R, L)
+    R.clause("CACHE-1", "CachingIterator refreshes is_valid / cached_entry from its child after every repositioning and answers from that cache")
+    R.once(round11.cache1_caching_iterator_refresh, P, R, L)
 
 
 def bundle_recovery(P, R, L):
@@ -4494,6 +4499,9 @@ def bundle_recovery(P, R, L):
     R.once(blind.enum1_tag_decoders, P, R, L)
     R.clause("ERR-5", "every From<io::Error> files the error under the IO variant, whatever its kind (the WAL reader skips what is classified as damage)")
     R.once(blind.err5_io_errors_keep_their_class, P, R, L)
+    from . import round11
+    R.clause("FS-4", "the crate's own std::io::Read implementations tell the end of a file by a short count / ErrorKind::UnexpectedEof only")
+    R.once(round11.fs4_end_of_file_contract, P, R, L)
 
 
 def bundle_filter(P, R, L):
